@@ -41,11 +41,14 @@ StateOK(m2) == WF(m2) /\ Partition(m2)
 
 \* Where the properties leave something open, the logged result need not be the machine's choice:
 \*  - retain: which entries the predicate sees is fixed (each once), the order of the calls is not
-\*  - find(q): the entries the result addresses are fixed, the position it reports is not
+\*  - find(q) for a q above the view's own position: the entries the result addresses are fixed, the position it
+\*    reports is not (at or below the view's position it is view_at(q), which C11 fixes completely)
+\*  - a retain whose predicate panicked: the outcome is fixed relative to the calls made before the panic
+\*    (RetainObserved), their order is not
 RetMatches(e, mine, logged, panicked) ==
     IF e.a = "Retain" /\ ~panicked
     THEN Len(mine) = Len(logged) /\ SeqSet(mine) = SeqSet(logged)
-    ELSE IF e.a = "Find" /\ e.kind = "find"
+    ELSE IF e.a = "Find" /\ e.kind = "find" /\ Len(e.q.n) < Len(e.p.n)
     THEN /\ Len(mine) = Len(logged)
          /\ mine # <<>> => mine[1].ok = logged[1].ok /\ mine[1].d.it = logged[1].d.it
     ELSE mine = logged
@@ -69,7 +72,8 @@ PairMatches(e, mine, logged) ==
 \* one single-map event on map `which`
 MapStep(e, which) ==
     LET m0 == IF which = "A" THEN mA ELSE mB
-        r  == Apply(m0, e)
+        r  == IF e.a = "Retain" /\ ~Has(e, "lenient") /\ Has(e, "pan") /\ e.pan /\ RetainObservedOK(m0, e, e.ret)
+              THEN RetainObserved(m0, e, e.ret) ELSE Apply(m0, e)
         ar == AbsApply(Entries(m0), e, r)
     IN \* a "lenient" line only advances the specification (used when the observers are judged after a call
        \* of another property's concern has already been rejected)
